@@ -231,7 +231,7 @@ def run_history(pym, spec, ops):
             raise ValueError(name)
         return f
 
-    f = observe(True)
+    f = observe()
     if f:
         return dict(f, op_index=-1, op='initial')
     for k, op in enumerate(ops):
